@@ -340,6 +340,44 @@ def inserting(sk, *xs):
     return True
 
 
+def tuple_nest(sk, *xs):
+    """depth-2 nest whose outer rank has tuple coordinates (a flattened rank whose shape is registered with Metrics.associateShape):
+    the rows of the inner rank's trace name the outer element by its flattened integer coordinate, whether or not the outer rank is traced"""
+    S0, S1, NK = sk["S0"], sk["S1"], sk["NK"]
+    cells = [(i, j) for i in range(S0) for j in range(S1)]
+    rows_ = [[xs[c * NK + k] for k in range(NK)] for c in range(len(cells))]
+    cs, ps = [], []
+    for c, vals in zip(cells, rows_):
+        kc = [k for k in range(NK) if vals[k] != 0]
+        if kc:
+            cs.append(c)
+            ps.append(Fiber(kc, [vals[k] for k in kc]))
+    reset_metrics()
+    t = Tensor.fromFiber(["MN", "K"], Fiber(cs, ps))
+    Metrics.beginCollect()
+    Metrics.associateShape("MN", (S0, S1))
+    Metrics.trace("K", type_="iter", consumable=True)
+    if sk["outer"]:
+        Metrics.trace("MN", type_="iter", consumable=True)
+    want = []
+    for mn, a_k in t.getRoot():
+        for k, v in a_k:
+            want.append((mn[0] * S1 + mn[1], k))
+    rows = Metrics.consumeTrace("K", "iter")
+    if sk["outer"]:
+        Metrics.consumeTrace("MN", "iter")
+    Metrics.endCollect()
+    body = rows[1:] if rows else []
+    if rows and rows[0] != ["MN_pos", "K_pos", "MN", "K", "fiber_pos"]:
+        return fail("header %r" % (rows[0],))
+    for r in body:
+        if len(r) != 5 or isinstance(r[2], tuple):
+            return fail("row %r does not match the header (the outer tuple coordinate must appear flattened)" % (r,))
+    if [(r[2], r[3]) for r in body] != want:
+        return fail("rows name the elements %r, touched were %r" % ([(r[2], r[3]) for r in body], want))
+    return _ordered(body, 2, True) or fail("stamps not strictly increasing")
+
+
 def flush(sk, n):
     """file-backed trace content does not depend on the flush threshold, and equals the in-memory rows"""
     A, B = sk["A"], sk["B"]
@@ -347,17 +385,22 @@ def flush(sk, n):
     os.makedirs(d, exist_ok=True)
     try:
         outs = []
-        for mode in ("mem", "file"):
+        for mode in (("mem", "file", "both") if sk.get("both") else ("mem", "file")):
             reset_metrics()
             a = kernels.mk_tensor(["M", "K"], A, False)
             b = kernels.mk_tensor(["K"], B, False)
             z = Tensor(rank_ids=["M"], shape=[len(A)])
             Metrics.beginCollect(os.path.join(d, "t"))
-            if mode == "file":
+            if mode in ("file", "both"):
                 Metrics.setNumCachedUses(n)
             for r, tys in TYPES.items():
                 for ty in tys:
-                    Metrics.trace(r, type_=ty, consumable=(mode == "mem"))
+                    if mode == "both":
+                        # the same trace requested as a file first and as a consumable trace afterwards: it is delivered both ways
+                        Metrics.trace(r, type_=ty)
+                        Metrics.trace(r, type_=ty, consumable=True)
+                    else:
+                        Metrics.trace(r, type_=ty, consumable=(mode == "mem"))
             for m, (z_ref, a_k) in z.getRoot() << a.getRoot():
                 for k, (a_val, b_val) in a_k & b.getRoot():
                     z_ref += a_val * b_val
@@ -365,7 +408,12 @@ def flush(sk, n):
                 outs.append({(r, ty): Metrics.consumeTrace(r, ty) for r, tys in TYPES.items() for ty in tys})
                 Metrics.endCollect()
             else:
+                both_mem = None
+                if mode == "both":
+                    both_mem = {(r, ty): Metrics.consumeTrace(r, ty) for r, tys in TYPES.items() for ty in tys}
                 Metrics.endCollect()
+                if both_mem is not None and both_mem != outs[0]:
+                    return fail("a trace requested both as a file and as a consumable trace delivers other in-memory rows than a consumable-only one")
                 got = {}
                 for r, tys in TYPES.items():
                     for ty in tys:
@@ -379,11 +427,12 @@ def flush(sk, n):
                 outs.append(got)
             Metrics.setNumCachedUses(1000) if Metrics.isCollecting() else None
         Metrics.num_cached_uses = 1000
-        mem, fil = outs
-        for key, rows in mem.items():
-            want = [[str(v) for v in row] for row in rows]
-            if fil[key] != want:
-                return fail("file trace %s-%s differs from the in-memory rows at this flush threshold: %r vs %r" % (key[0], key[1], fil[key], want))
+        mem = outs[0]
+        for fil in outs[1:]:
+            for key, rows in mem.items():
+                want = [[str(v) for v in row] for row in rows]
+                if fil[key] != want:
+                    return fail("file trace %s-%s differs from the in-memory rows at this flush threshold: %r vs %r" % (key[0], key[1], fil[key], want))
         return True
     finally:
         Metrics.num_cached_uses = 1000
@@ -429,4 +478,7 @@ def obligations(tier):
         obs.append(Ob("inserting/%dx%d" % (nz, na), "inserting", dict(nz=nz, na=na, S=8), zn + an, chain_pre(zn) + chain_pre(an) + bound_pre(zn + an, 0, 8)))
     for A, B in [([[1, 0, 2], [0, 3, 4]], [5, 6, 0]), ([[1, 1, 1], [1, 1, 1]], [1, 1, 1]), ([[0, 0, 0], [0, 0, 0]], [1, 1, 1])]:
         obs.append(Ob("flush/%s" % "".join(str(v) for r in A for v in r), "flush", dict(A=A, B=B), ["n"], ["2 <= n"]))
+    for outer in (False, True):
+        obs.append(Ob("tuple-nest/2x2x2/%s" % ("outer-traced" if outer else "outer-untraced"), "tuple_nest", dict(S0=2, S1=2, NK=2, outer=outer), names("v", 8), []))
+    obs.append(Ob("flush/both/102034", "flush", dict(A=[[1, 0, 2], [0, 3, 4]], B=[5, 6, 0], both=True), ["n"], ["2 <= n"]))
     return obs
